@@ -149,7 +149,10 @@ func (x *Ctx) eval(c *Case, force bool) (str, byt string) {
 		x.finding(Finding{Kind: "panic", Fn: c.Fn, Case: line, Str: str, Byt: byt, Detail: lastPanic})
 		bad = true
 	}
-	if !dup && (force || bad || x.st.CasesWritten < x.limit) {
+	// very long inputs are decided against the Go reference only (the extracted model works on
+	// unary/binary inductive numbers); a disagreement is always sent to the model
+	tooLong := len(c.S) > 8192 || len(c.T) > 8192
+	if !dup && (bad || (!tooLong && (force || x.st.CasesWritten < x.limit))) {
 		x.st.CasesWritten++
 		fmt.Fprintf(x.out, "%s\t=\t%s\t%s\t%s\n", line, str, byt, want)
 		if len(x.st.Samples) < 12 && (x.st.CasesWritten%97 == 1) {
